@@ -58,6 +58,19 @@ func loadAll(repo string) (*World, *Contracts) {
 	}
 	w.ModSet = map[*ssa.Function]map[string]bool{}
 	w.computeModSets()
+	w.FrameAll = map[*ssa.Function]bool{}
+	w.FrameKeys = map[*ssa.Function]map[string]bool{}
+	for n, f := range w.Funcs {
+		if ct := cs.For(n); ct != nil && ct.Opts["frame-all"] != "" {
+			w.FrameAll[f] = true
+		}
+		if ct := cs.For(n); ct != nil && ct.Opts["frame-keys"] != "" {
+			w.FrameKeys[f] = map[string]bool{}
+			for _, k := range strings.Fields(ct.Opts["frame-keys"]) {
+				w.FrameKeys[f][k] = true
+			}
+		}
+	}
 	w.computeWritesExisting()
 	if bad := w.checkPureIfaces(cs); len(bad) > 0 {
 		for _, b := range bad {
